@@ -883,9 +883,7 @@ def r_all_candidates(ck: Checker, rule: str = "R-XP-FIND") -> None:
     what = "ASTXpath.findall tests every candidate of a step (no early exit from a loop over candidates)"
     if bad is not None:
         ck.violation(rule, f, bad, what, positive=True, construct=f"ASTXpath.findall: `{norm(bad)[:30]}` leaves a loop over the candidates of a step — the candidates after the first hit are never tested")
-    elif n == 0:
-        raise Unsupported("ASTXpath.findall: no loop over dfs() / child nodes found", fn)
-    else:
+    else:  # (a positive pattern: where findall has no statement loop over candidates there is nothing to leave early)
         ck.holds(rule, f, f.node, what, loops=n)
 
 
